@@ -14,6 +14,9 @@ type Bounds struct {
 	MaxMap   int // maps: nil, or 0..MaxMap entries with pairwise distinct keys
 	RecDepth int // recursion through named types is cut at this depth (pointer/slice/map forced nil)
 	Alias    bool
+	// Spine: the outermost Spine levels of directly nested slices are non-nil with exactly one element (no
+	// choice); the symbolic structure starts below them (deeply nested shapes)
+	Spine int `json:",omitempty"`
 }
 
 // SymBuilder creates symbolic values of Go types (structure forked, scalars symbolic).
@@ -26,6 +29,7 @@ type SymBuilder struct {
 	mapPool map[string][]engine.Map
 	Cut     int // number of positions cut by RecDepth
 	n       int
+	sliceDepth int
 }
 
 func NewSymBuilder(r *engine.Run, b Bounds) *SymBuilder {
@@ -121,6 +125,12 @@ func (sb *SymBuilder) symU(u types.Type, named *types.Named, path string) engine
 		if sb.cut() {
 			sb.Cut++
 			return engine.Slice{Nil: true}
+		}
+		if sb.sliceDepth < sb.B.Spine {
+			sb.sliceDepth++
+			e := sb.Sym(u.Elem(), path+"_0")
+			sb.sliceDepth--
+			return engine.Slice{Elems: []engine.Value{e}, Len: 1}
 		}
 		key := u.Elem().String()
 		pool := sb.slPool[key]
